@@ -18,7 +18,7 @@ from vlib import (BuildError, HARNESS, TARGET, VERIF, WORK, OFFLINE_ENV, _run_bu
 ID = 'C01'
 LEVEL = 'exploration'
 HANG_IS_VIOLATION = True
-RULE = ('hostile inputs of 6 families (dense random grids, mutated bundled diagrams, arbitrary unicode scalars, '
+RULE = ('hostile inputs of 7 families (dense random grids, mutated bundled diagrams, crossovers of two diagrams, arbitrary unicode scalars, '
         'quote/brace/legend grammar soup, structural stress for the recursive merges, a size ladder) x the five entry '
         'points x include_* switches x extreme finite scales and override sizes; non-trivial = distinct (input, entry, '
         'settings) whose output contains at least one drawing element')
@@ -129,6 +129,35 @@ def fam_mutated(rng, circles):
     return '\n'.join(''.join(r) for r in rows) + rng.choice(['\n', '', '\r\n'])
 
 
+def fam_crossover(rng, circles):
+    """rows of two bundled diagrams / circles spliced together, shifted against each other"""
+    global _BUNDLED
+    if _BUNDLED is None:
+        _BUNDLED = gen.bundled(strip_legend=False)
+    def pick():
+        if rng.random() < 0.3 and circles:
+            return list(rng.choice(circles))
+        name, rows = rng.choice(_BUNDLED)
+        return gen.blocks_of(rows, rng, h=rng.choice([4, 8, 16]), w=rng.choice([20, 40, 80]))
+    a, b = pick(), pick()
+    out = []
+    for i in range(max(len(a), len(b))):
+        ra = a[i] if i < len(a) else ''
+        rb = b[i] if i < len(b) else ''
+        k = rng.randrange(5)
+        if k == 0:
+            out.append(ra + rb)
+        elif k == 1:
+            out.append(ra[:rng.randint(0, len(ra))] + rb[rng.randint(0, len(rb)):])
+        elif k == 2:
+            out.append(''.join(x if x != ' ' else y for x, y in zip(ra.ljust(len(rb)), rb.ljust(len(ra)))))
+        elif k == 3:
+            out.append(rb + ' ' * rng.randint(0, 2) + ra[::-1])
+        else:
+            out.append(ra)
+    return '\n'.join(out) + '\n'
+
+
 def any_scalar(rng):
     while True:
         plane = rng.choice([0, 0, 0, 1, 2, 3, 14, 15, 16])
@@ -165,7 +194,7 @@ def fam_grammar(rng):
 
 
 def fam_stress(rng, big):
-    k = rng.randrange(12)
+    k = rng.randrange(13)
     n = rng.choice([50, 200, 1000, 5000, 20000] if big else [20, 60, 150, 400])
     if k == 0:
         ch = rng.choice('-_=~|:/\\─│*oO.+x')
@@ -211,9 +240,37 @@ def fam_stress(rng, big):
         return '\n'.join(rows) + '\n'
     if k == 10:  # long quoted strings and many quotes
         return ('"' + 'q' * min(n, 5000) + '" ') * 3 + '"' * (n % 7) + '\n'
-    # long legend
-    m = min(n, 2000)
-    return '+-+\n' + '# Legend:\n' + '\n'.join('a%d = {fill:red}' % i for i in range(m)) + '\n'
+    if k == 11:
+        # long legend
+        m = min(n, 2000)
+        return '+-+\n' + '# Legend:\n' + '\n'.join('a%d = {fill:red}' % i for i in range(m)) + '\n'
+    # deep nesting of every bracket-like character of the grammars (recursive descent must not recurse per char)
+    m = n * 10 if big else n
+    o, c = rng.choice([('{', '}'), ('"', '"'), ('(', ')'), ('\\"', ''), ('{a,', '}'), ('[', ']')])
+    body = o * m + 'x' + (c * m if rng.random() < 0.5 else '')
+    where = rng.randrange(4)
+    if where == 0:
+        return '+-+\n# Legend:\na = ' + body + '\n'
+    if where == 1:
+        return '+-+\n# Legend:\na = {' + body + '}\n'
+    if where == 2:
+        return '+' + '-' * 8 + '+\n| ' + body + ' |\n'
+    return body + '\n'
+
+
+def fam_nesting(rng):
+    """deep nesting / long runs of the bracket-like characters of the two grammars, in every channel"""
+    m = rng.choice([1000, 10000, 100000, 300000])
+    o, c = rng.choice([('{', '}'), ('"', '"'), ('(', ')'), ('\\"', ''), ('{a,', '}'), ('[', ']'), ('{', '')])
+    body = o * m + 'x' + (c * m if rng.random() < 0.5 else '')
+    where = rng.randrange(4)
+    if where == 0:
+        return '+-+\n# Legend:\na = ' + body + '\n'
+    if where == 1:
+        return '+-+\n# Legend:\na = {' + body + '}\n'
+    if where == 2:
+        return '# Legend:\n' + body + ' = {x}\n'
+    return body[:20001] + '\n'
 
 
 def fam_ladder(rng, size):
@@ -233,6 +290,8 @@ def run_shard(ctx, shard):
             inp = fam_dense(rng)
         elif fam == 'mutated':
             inp = fam_mutated(rng, circles)
+        elif fam == 'crossover':
+            inp = fam_crossover(rng, circles)
         elif fam == 'unicode':
             inp = fam_unicode(rng)
         elif fam == 'grammar':
@@ -241,9 +300,11 @@ def run_shard(ctx, shard):
             inp = fam_stress(rng, shard.get('big', False))
         elif fam == 'ladder':
             inp = fam_ladder(rng, shard['size'])
+        elif fam == 'nesting':
+            inp = fam_nesting(rng)
         else:
             raise ValueError(fam)
-        kw = settings_for(rng) if fam not in ('ladder',) else {'entry': 0}
+        kw = settings_for(rng) if fam not in ('ladder', 'nesting') else {'entry': rng.choice([0, 2, 3])}
         if fam == 'stress' and shard.get('big'):
             kw = {'entry': rng.choice([0, 2, 3])}
         case = {'input': inp, 'kw': kw, 'family': fam}
@@ -375,21 +436,23 @@ def execute(run):
     extra = {'circles': info['circles']}
     shards = []
     if run.tier == 'quick':
-        plan = [('dense', 16, 1500), ('mutated', 16, 1200), ('unicode', 16, 2200), ('grammar', 16, 2200), ('stress', 16, 12)]
+        plan = [('dense', 16, 1500), ('mutated', 16, 1200), ('crossover', 16, 800), ('unicode', 16, 2200), ('grammar', 16, 2200), ('stress', 16, 12)]
         for fam, k, n in plan:
             for i in range(k):
                 shards.append({'name': '%s-%d' % (fam, i), 'family': fam, 'n': n, 'corners': fam == 'grammar' and i == 0})
         shards += [{'name': 'stress-big-%d' % i, 'family': 'stress', 'n': 2, 'big': True} for i in range(8)]
         shards += [{'name': 'ladder-%d' % s, 'family': 'ladder', 'n': 1, 'size': s} for s in (1024, 2048, 4096)]
+        shards += [{'name': 'nesting-%d' % i, 'family': 'nesting', 'n': 8} for i in range(4)]
     else:
-        plan = [('dense', 64, 9000), ('mutated', 64, 8000), ('unicode', 64, 14000), ('grammar', 64, 14000), ('stress', 32, 40)]
+        plan = [('dense', 64, 9000), ('mutated', 64, 8000), ('crossover', 64, 5000), ('unicode', 64, 14000), ('grammar', 64, 14000), ('stress', 32, 40)]
         for fam, k, n in plan:
             for i in range(k):
                 shards.append({'name': '%s-%d' % (fam, i), 'family': fam, 'n': n, 'corners': fam == 'grammar' and i == 0})
         shards += [{'name': 'stress-big-%d' % i, 'family': 'stress', 'n': 6, 'big': True} for i in range(16)]
         shards += [{'name': 'ladder-%d-%d' % (s, j), 'family': 'ladder', 'n': 1, 'size': s} for s in (1024, 2048, 4096, 8192, 16384) for j in range(2)]
+        shards += [{'name': 'nesting-%d' % i, 'family': 'nesting', 'n': 20} for i in range(8)]
     # long shards first so that the pool is balanced
-    shards.sort(key=lambda s: 0 if s['family'] in ('ladder',) or s.get('big') else 1)
+    shards.sort(key=lambda s: 0 if s['family'] in ('ladder', 'nesting') or s.get('big') else 1)
     run.run_shards(binary, shards, extra=extra)
     if run.tier == 'thorough':
         checked_leg(run, info)
